@@ -116,6 +116,10 @@ def two_tables(v: str, w: str, t: str) -> bool:
     pre: len(v) <= VLEN and len(w) <= VLEN and len(t) <= TLEN
     post: _
     """
+    return _two_tables(v, w, t)
+
+
+def _two_tables(v, w, t):
     # one outline, two examples tables whose header rows differ (columns swapped) and whose body rows are equal:
     # each row must be substituted with the header of ITS OWN table
     g = Gen(0)
@@ -136,3 +140,12 @@ def two_tables(v: str, w: str, t: str) -> bool:
         if p["steps"][1]["argument"]["docString"]["content"] != e:
             return False
     return True
+
+
+def two_tables_fixed(flip: bool) -> bool:
+    """
+    post: _
+    """
+    # the same arrangement with concrete texts (one path per value of `flip`): cheap even when the code under test keeps
+    # per-row state in containers keyed by symbolic strings
+    return _two_tables("1", "2", "<b>-<a>" if flip else "x<a>y<b>z")
